@@ -327,7 +327,7 @@ struct Walker {
   }
 };
 
-const char *kOpShort[] = {"CREATE", "SET", "DEFINE", "PARSE", "ERRQ", "WALK", "FREE_TREE", "FREE_GRAMMAR"};
+const char *kOpShort[] = {"CREATE", "SET", "DEFINE", "PARSE", "ERRQ", "WALK", "FREE_TREE", "FREE_GRAMMAR", "CONFIG"};
 
 jmp_buf g_jmp;
 
@@ -899,6 +899,7 @@ struct Exec {
       res.stats.parses_ok++;
       if (op.fault.type == Fault::EOF_AT) res.stats.faults["early_eof"]++;
     }
+    if (!undefined && !nullalloc && !fired) c09_group_check(op, o, outcome);
     // ---- C14: fresh twin
     if (!undefined && !nullalloc && !fired) {
       std::string tw;
@@ -1095,6 +1096,12 @@ struct Exec {
     case OP_WALK: op_walk(op); break;
     case OP_FREE_TREE: op_free_tree(op); break;
     case OP_FREE_GRAMMAR: op_free_grammar(op); break;
+    case OP_CONFIG:
+      heap_set_knobs(op.c_knobs, op.c_cache_skip, op.c_selfcheck, op.c_realloc, op.c_sink);
+      cfg_now = "k" + std::to_string(op.c_knobs) + "/c" + std::to_string(op.c_cache_skip) + "/r" + std::to_string(op.c_realloc);
+      probe("config_flipped_mid_run");
+      outcomes.push_back("config");
+      break;
     }
     OpCounters c = heap_end_op();
     if (opt.raw && index < (int)plan.ops.size()) {
@@ -1115,6 +1122,31 @@ struct Exec {
     if (target_uid >= 0) { prev_obj_uid = target_uid; prev_kind = (int)op.kind; }
   }
   int prev_kind = -1;
+  std::string cfg_now = "plan";
+  // C09: parses of one (grammar, input, result-selecting flags) must agree whatever the lookahead level,
+  // debug level and the simulator's internal choices were
+  struct GroupRef { std::string outcome; int op; int la, dbg; std::string cfg; };
+  std::map<std::string, GroupRef> groups;
+  void c09_group_check(const Op &op, const ObjRec *o, const std::string &outcome) {
+    if (opt.raw) return;
+    std::ostringstream k;
+    k << o->m.gidx << "|" << op.input << "|" << (o->m.set[2] != 0) << "|" << (o->m.set[3] != 0) << "|" << (o->m.set[4] != 0) << "|" << o->m.set[5]
+      << "|" << (int)op.alloc << "|" << (int)op.fault.type << ":" << op.fault.k << ":" << op.fault.code;
+    auto it = groups.find(k.str());
+    if (it == groups.end()) { groups[k.str()] = GroupRef{outcome, cur_op, o->m.set[0], o->m.set[1], cfg_now}; return; }
+    probe("c09_group_compared");
+    std::string why;
+    if (!same_outcome(outcome, it->second.outcome, &why)) {
+      std::string site;
+      if (it->second.la != o->m.set[0]) site += "lookahead";
+      if (it->second.dbg != o->m.set[1]) site += (site.empty() ? "" : "+") + std::string("debug");
+      if (it->second.cfg != cfg_now) site += (site.empty() ? "" : "+") + std::string("internal-choices");
+      if (site.empty()) site = "repeat";
+      viol("C09", "outcome_differs", site, "parse at op " + std::to_string(cur_op) + " (lookahead " + std::to_string(o->m.set[0]) + ", debug " +
+           std::to_string(o->m.set[1]) + ", " + cfg_now + ") differs from op " + std::to_string(it->second.op) + " (lookahead " +
+           std::to_string(it->second.la) + ", debug " + std::to_string(it->second.dbg) + ", " + it->second.cfg + "): " + why);
+    } else if (it->second.la != o->m.set[0]) probe("c09_lookahead_levels_agree");
+  }
 
   void run() {
     int n = (int)plan.ops.size();
